@@ -12,7 +12,7 @@ PRE_TRANSPARENCY_ONLY = ['disable']    # used by C04 / C18; not a capture fault 
 ON_IN = ['badkey', 'body_discard', 'body_force', 'body_raise_user', 'body_raise_interrupt', 'value_unencodable', 'body_raise_unencodable']
 ON_OUT = ['badkey', 'body_discard', 'body_force', 'body_raise_user', 'body_raise_interrupt', 'value_unencodable', 'body_raise_unencodable']
 # faults that are behaviour of the service itself (they happen in the twin and in a replay as well)
-SERVICE_LEVEL = {'raise_user', 'raise_user_unencodable', 'raise_user_unencodable_noargs', 'raise_interrupt', 'body_raise_user', 'body_raise_interrupt', 'value_unencodable', 'badkey', 'body_raise_unencodable'}
+SERVICE_LEVEL = {'raise_user', 'raise_user_unencodable', 'raise_user_unencodable_noargs', 'raise_framework_error', 'raise_interrupt', 'body_raise_user', 'body_raise_interrupt', 'value_unencodable', 'badkey', 'body_raise_unencodable'}
 # faults after which the framework must not save the recording
 CAPTURE_FAILURES = {'badkey_key', 'handler_raises', 'resolver_raises', 'discard', 'body_discard'}
 
